@@ -63,7 +63,8 @@ type Net struct {
 
 	mu        sync.RWMutex
 	udp       map[string]*UDPSock
-	tcpl      map[string]*TCPListener
+	tcpl      map[string][]*TCPListener // several listeners on one address only with SO_REUSEPORT on all of them
+	tcplRR    map[string]int
 	names     map[string]string // "ip:port" -> actor name; "ip" -> actor name
 	Socks     []*SockInfo
 	flowCount map[string]int
@@ -78,7 +79,7 @@ type Net struct {
 }
 
 func NewNet(k *Kernel) *Net {
-	return &Net{K: k, udp: map[string]*UDPSock{}, tcpl: map[string]*TCPListener{}, names: map[string]string{},
+	return &Net{K: k, udp: map[string]*UDPSock{}, tcpl: map[string][]*TCPListener{}, tcplRR: map[string]int{}, names: map[string]string{},
 		flowCount: map[string]int{}, ioCount: map[string]int{}, ephemeral: map[string]int{}, ServerIPs: map[string]bool{},
 		LatCS: k.Plan.Cfg.LatCSns, LatSP: k.Plan.Cfg.LatSPns}
 }
@@ -459,11 +460,20 @@ type TCPListener struct {
 	q      []*TCPConn
 	notify chan struct{}
 	closed bool
+	reuse  bool // SO_REUSEPORT
 	// scripted listener: run by the driver on SYN arrival; returns false to refuse
 	OnConn func(c *TCPConn)
 }
 
 func (n *Net) ListenTCP(role, owner string, ip net.IP, port int) (*TCPListener, error) {
+	return n.ListenTCPReuse(role, owner, ip, port, false)
+}
+
+// ListenTCPReuse: with reuse (SO_REUSEPORT) a bind to an address succeeds although listeners
+// hold it already, if every one of them has the option set too - as on Linux for sockets of
+// one user. Incoming connections are then spread over those listeners. A port asked for as 0
+// is still one nobody holds.
+func (n *Net) ListenTCPReuse(role, owner string, ip net.IP, port int, reuse bool) (*TCPListener, error) {
 	if do, ok := n.ioFault(role, "Listen"); ok && do == "error" {
 		return nil, &net.OpError{Op: "listen", Net: "tcp", Err: syscall.EADDRINUSE}
 	}
@@ -473,19 +483,24 @@ func (n *Net) ListenTCP(role, owner string, ip net.IP, port int) (*TCPListener, 
 		for {
 			n.ephemeral["t"+ip.String()]++
 			port = 49152 + (n.ephemeral["t"+ip.String()]*7919)%16000
-			if _, used := n.tcpl[akey(ip, port)]; !used {
+			if len(n.tcpl[akey(ip, port)]) == 0 {
 				break
 			}
 		}
 	}
 	key := akey(ip, port)
-	if _, used := n.tcpl[key]; used {
-		return nil, &net.OpError{Op: "listen", Net: "tcp", Err: syscall.EADDRINUSE}
+	for _, o := range n.tcpl[key] {
+		if !reuse || !o.reuse {
+			return nil, &net.OpError{Op: "listen", Net: "tcp", Err: syscall.EADDRINUSE}
+		}
 	}
-	l := &TCPListener{N: n, Role: role, laddr: &net.TCPAddr{IP: ip, Port: port}, Bound: &net.TCPAddr{IP: ip, Port: port}, notify: make(chan struct{}, 1)}
+	if len(n.tcpl[key]) > 0 {
+		n.K.Stats.Fault("net:reuseport-shared-bind")
+	}
+	l := &TCPListener{reuse: reuse, N: n, Role: role, laddr: &net.TCPAddr{IP: ip, Port: port}, Bound: &net.TCPAddr{IP: ip, Port: port}, notify: make(chan struct{}, 1)}
 	l.Info = &SockInfo{Kind: "tcp-listener", Role: role, Owner: owner, Addr: key}
 	n.register(l.Info)
-	n.tcpl[key] = l
+	n.tcpl[key] = append(n.tcpl[key], l)
 	if n.Obs != nil {
 		n.Obs.SockOpen(l.Info)
 	}
@@ -532,7 +547,18 @@ func (l *TCPListener) Close() error {
 	if !already {
 		l.Info.Open = false
 		l.Info.ClosedAt = l.N.K.Now()
-		delete(l.N.tcpl, l.Info.Addr)
+		ls := l.N.tcpl[l.Info.Addr]
+		for i, o := range ls {
+			if o == l {
+				ls = append(ls[:i:i], ls[i+1:]...)
+				break
+			}
+		}
+		if len(ls) == 0 {
+			delete(l.N.tcpl, l.Info.Addr)
+		} else {
+			l.N.tcpl[l.Info.Addr] = ls
+		}
 	}
 	l.N.mu.Unlock()
 	if already {
@@ -667,7 +693,11 @@ func (n *Net) DialAsync(role string, laddr, raddr *net.TCPAddr, done func(c *TCP
 	}
 	k.After(lat, fmt.Sprintf("syn:%s#%d", flow, nth), func() {
 		n.mu.Lock()
-		l := n.tcpl[akey(raddr.IP, raddr.Port)]
+		var l *TCPListener
+		if ls := n.tcpl[akey(raddr.IP, raddr.Port)]; len(ls) > 0 {
+			l = ls[n.tcplRR[akey(raddr.IP, raddr.Port)]%len(ls)]
+			n.tcplRR[akey(raddr.IP, raddr.Port)]++
+		}
 		n.mu.Unlock()
 		if l == nil {
 			k.After(lat, "synrst:"+flow, func() { done(nil, &net.OpError{Op: "dial", Net: "tcp", Err: syscall.ECONNREFUSED}) })
